@@ -605,7 +605,7 @@ harnesses! {
     // (pass-level scenarios of step.rs are not registered: the smallest one reached 9.7 GB in the third
     //  iteration of pass 1 after 20 min even with process / Item::clone replaced by models - DESIGN.md 0)
     // ---- pass-level scenarios on stack-backed inputs (pass.rs): real build_pass_1 + build_pass_2
-    p02_instr_0_at2 { prop: X02, feat: "c02", tier: thorough, mode: leaf, unwind: 6, caps: "drop=1,eq=1" } => |s| pass::instr_label(s, 0, false, 2);
+    p02_instr_0_at2 { prop: C02, feat: "c02", tier: thorough, mode: leaf, unwind: 6, caps: "drop=1,eq=1" } => |s| pass::instr_label(s, 0, false, 2);
     p02_instr_1_at0 { prop: X02, feat: "c02", tier: thorough, mode: leaf, unwind: 6, caps: "drop=1,eq=1" } => |s| pass::instr_label(s, 1, false, 0);
     p02_instr_1_at2 { prop: X02, feat: "c02", tier: thorough, mode: leaf, unwind: 6, caps: "drop=1,eq=1" } => |s| pass::instr_label(s, 1, false, 2);
     p02_instr_2_at1 { prop: X02, feat: "c02", tier: thorough, mode: leaf, unwind: 6, caps: "drop=1,eq=1" } => |s| pass::instr_label(s, 2, false, 1);
